@@ -242,6 +242,8 @@ def analyse(obs: Obs, prog):
         obs.add({"C05", "C13"}, "WEIGHT-UPD", "Switch.edit/same-index-weight", okw0, derived=show(wt[3])[:200], expected="choose(idx, [w_i])", where=w)
     oks = is_t(f.get("score"), "choose") and is_t(q[2], "choose")
     obs.add({"C05", "C13", "C01"}, "SCORE-AGG", "Switch.edit/score", oks and f.get("retval") == dcall("tree_primal", q[2]), derived=show(f.get("retval"))[:200], expected="score / retdiff chosen by the new index; retval = primal(retdiff)", where=w)
+    okst = is_t(f.get("subtraces"), "fam") and all(is_t(x, "mselem") and is_t(x[2], "proj") and x[2][2] == 0 or (is_t(x, "mselem")) for x in ([f.get("subtraces")[2]] if not is_t(f.get("subtraces")[2], "phi") else [f.get("subtraces")[2][2], f.get("subtraces")[2][3]])) if is_t(f.get("subtraces"), "fam") else False
+    obs.add({"C05", "C13", "C01"}, "TRACE-INNER", "Switch.edit/subtraces", okst, derived=show(f.get("subtraces"))[:200], expected="[t[0] for t in rets]: the per-branch result traces", where=w)
     # backward request must be selected by the executed branch
     bwd = q[3]
     const_sub = [x for x in subterms(bwd) if is_t(x, "proj") and (is_t(x[1], "mswitch") or is_t(x[1], "fam"))]
